@@ -523,6 +523,8 @@ class stDiGraph(AbstractSourceSinkGraph):
         for c in reachable_sccs:
             result |= self._nodes_by_scc.get(c, set())
 
+        # The cached object is handed out: make it immutable so that a caller cannot corrupt later answers
+        result = frozenset(result)
         self._nodes_reachable_from_node_cache[node] = result
         return result
 
@@ -561,6 +563,8 @@ class stDiGraph(AbstractSourceSinkGraph):
         for c in ancestor_sccs:
             result |= self._nodes_by_scc.get(c, set())
 
+        # The cached object is handed out: make it immutable so that a caller cannot corrupt later answers
+        result = frozenset(result)
         self._nodes_reaching_node_cache[node] = result
         return result
     
